@@ -188,3 +188,79 @@ func ZzvC19Twin() {
 	zzverif.Assert(zzvAmount(n.deviceFree[gpu][0], apiext.ResourceGPUCore) == 100, "twin: a share taken before the restart is free after it")
 	zzverif.Reach("end")
 }
+
+// ZzvC19Codec: the engine's models of encoding/json and of resource.Quantity's JSON text against the real
+// libraries on hand-written device-allocation annotations (quantity spellings, nulls, wrong types,
+// unparsable amounts, extensions), read by GetDeviceAllocations and replayed into an empty cache. Every path
+// is replayed natively and everything observable is observed: a disagreement makes the run inconclusive.
+func ZzvC19Codec() {
+	const gpu = schedulingv1alpha1.GPU
+	docs := []string{
+		`{"gpu":[{"minor":0,"resources":{"koordinator.sh/gpu-core":"100"}}]}`,
+		`{"gpu":[{"minor":1,"resources":{"koordinator.sh/gpu-core":"50","koordinator.sh/gpu-memory-ratio":"8Gi"},"id":"x","extension":{"vfs":[{"minor":2,"busID":"0000:01:00.2"}]}}]}`,
+		`{"gpu":null}`,
+		`{}`,
+		`null`,
+		`{"rdma":[{"minor":1,"resources":null}]}`,
+		`{"gpu":[null]}`,
+		`{"gpu":[{"minor":"1"}]}`,
+		`{"gpu":[{"minor":1,"resources":{"koordinator.sh/gpu-core":"abc"}}]}`,
+		`{"gpu":[{"minor":1,"resources":{"koordinator.sh/gpu-core":1500}}]}`,
+		`{"gpu":[{"minor":1,"resources":{"koordinator.sh/gpu-core":"1.5"}}]}`,
+		`{"gpu":[{"minor":0,"resources":{"koordinator.sh/gpu-core":"100m"}},{"minor":1,"resources":{"koordinator.sh/gpu-core":"1e3"}}]}`,
+		`{"gpu":[{"minor":0,"resources":{"koordinator.sh/gpu-core":"0"}},{"minor":0,"resources":{"koordinator.sh/gpu-core":"-5"}}]}`,
+		`{"gpu":[{"minor":0,"resources":{"koordinator.sh/gpu-core":" 7 "}}]}`,
+		`{"gpu":[{"minor":0,"resources":{"koordinator.sh/gpu-core":null}}]}`,
+		`{"gpu":[{"Minor":1,"RESOURCES":{"koordinator.sh/gpu-core":"3"}}]}`,
+		`{"gpu":[{"minor":1,"resources":{"koordinator.sh/gpu-core":"3"}}]`,
+		`{"gpu":[{"minor":2147483648}]}`,
+	}
+	k := zzverif.Choice("doc", len(docs))
+	pod := &corev1.Pod{ObjectMeta: metav1.ObjectMeta{Namespace: "ns", Name: "pod", Annotations: map[string]string{apiext.AnnotationDeviceAllocated: docs[k]}}, Spec: corev1.PodSpec{NodeName: "node"}}
+	got, err := apiext.GetDeviceAllocations(pod.Annotations)
+	b2i := func(b bool) int64 {
+		if b {
+			return 1
+		}
+		return 0
+	}
+	zzverif.Observe("err", b2i(err != nil))
+	zzverif.Observe("nil", b2i(got == nil))
+	zzverif.Observe("types", int64(len(got)))
+	for _, t := range []schedulingv1alpha1.DeviceType{gpu, schedulingv1alpha1.RDMA} {
+		zzverif.Observe(string(t)+"_n", int64(len(got[t])))
+		for i, a := range got[t] {
+			is := string(t) + strconv.Itoa(i)
+			if a == nil {
+				zzverif.Observe(is+"_nil", 1)
+				continue
+			}
+			zzverif.Observe(is+"_minor", int64(a.Minor))
+			zzverif.Observe(is+"_resources", int64(len(a.Resources)))
+			zzverif.Observe(is+"_hasExtension", b2i(a.Extension != nil))
+			zzverif.Observe(is+"_idLen", int64(len(a.ID)))
+			for name, q := range a.Resources {
+				zzverif.Observe(is+"_"+string(name)+"_milli", q.MilliValue())
+				zzverif.Observe(is+"_"+string(name)+"_value", q.Value())
+			}
+		}
+	}
+	if err == nil && len(got[gpu]) > 0 && got[gpu][0] != nil {
+		minor := int32(0)
+		minor1 := int32(1)
+		dev := &schedulingv1alpha1.Device{ObjectMeta: metav1.ObjectMeta{Name: "node"}, Spec: schedulingv1alpha1.DeviceSpec{Devices: []schedulingv1alpha1.DeviceInfo{
+			{Type: gpu, Minor: &minor, UUID: "gpu-0", Health: true, Resources: zzvGPURes(100, 100)},
+			{Type: gpu, Minor: &minor1, UUID: "gpu-1", Health: true, Resources: zzvGPURes(100, 100)}}}}
+		fresh := newNodeDeviceCache()
+		fresh.updateNodeDevice("node", dev)
+		fresh.onPodAdd(pod)
+		n := fresh.getNodeDevice("node", false)
+		for m := 0; m < 2; m++ {
+			q := n.deviceUsed[gpu][m][apiext.ResourceGPUCore]
+			zzverif.Observe("used"+strconv.Itoa(m)+"_milli", q.MilliValue())
+			f := n.deviceFree[gpu][m][apiext.ResourceGPUCore]
+			zzverif.Observe("free"+strconv.Itoa(m)+"_milli", f.MilliValue())
+		}
+	}
+	zzverif.Reach("end")
+}
